@@ -347,6 +347,12 @@ func (se *SpecEnv) ident(name string) SVal {
 	}
 	// ghost variable
 	if v, ok := se.st.m["G|"+name]; ok {
+		if strings.HasPrefix(v.S, "?hv") {
+			if so, known := se.ex.keySort["G|"+name]; known {
+				return SVal{T: se.ex.get(se.st, "G|"+name, so)}
+			}
+			return se.fail("ghost %s has no declared sort here", name)
+		}
 		return SVal{T: v}
 	}
 	// package-level constant or variable
